@@ -109,6 +109,18 @@ def oracle(ck, tier, deep):
                 other = 1 - axes
                 if ga[other] != im.shape[other] // 2 or abs(ga[axes] - got[axes]) > tol:
                     ck.violation(dict(sig, clause="axes"), dict(rep, axes=axes), f"{meth} axes={axes} returned {ga}")
+        # detector counts: the same image stored as integers (narrow types with small counts, 64-bit integers with large ones) has the same origin
+        kind_i = int(rng.integers(0, 3))
+        imi = [np.round(im * 200).astype(np.uint8), np.round(im * 6e4).astype(np.uint16), np.round(im * 6e4).astype(np.int64) * 1000][kind_i]
+        for meth, tol in (("com", 1e-9), ("convolution", 0.0)):
+            try:
+                gi, gf = quiet(find_origin, imi, meth), quiet(find_origin, imi.astype(np.float64), meth)
+            except Exception as e:
+                ck.violation(dict(site="find_origin", method=meth, clause="exception"), dict(rep, dtype=str(imi.dtype)), f"{type(e).__name__}: {e}")
+                continue
+            if max(abs(gi[0] - gf[0]), abs(gi[1] - gf[1])) > tol:
+                ck.violation(dict(site="find_origin", method=meth, clause="integer-image"), dict(shape=[rows, cols], dtype=str(imi.dtype), peak=int(imi.max())),
+                             f"{meth}: the {imi.dtype} image (peak {int(imi.max())}) gives {gi}, its float64 copy {gf}")
         ic = quiet(find_origin, im, "image_center")
         if tuple(ic) != (rows // 2, cols // 2):
             ck.violation(dict(site="find_origin", method="image_center", clause="image_center"), rep, f"image_center returned {ic}")
@@ -156,6 +168,23 @@ def oracle(ck, tier, deep):
                          f"convolution returned {got} for broad content (sigma {sig_:.0f} px) symmetric about {want}")
     # Gaussian fit on Gaussian spots (to fit accuracy), translation on the same: ordinary spots, spots sharper than a pixel (their
     # true amplitude is higher than any sample), and broad spots cut off unevenly by the frame (still exactly Gaussian axis sums)
+    # … a lattice of narrow spots (σ from 0.4 to 1 pixel, on and between pixel centres, odd and even frames): the starting values of the
+    # fit must bracket the half-maximum points of a peak a few samples wide
+    for nn in (100, 101):
+        for sg in (0.4, 0.5, 0.6, 0.8, 1.0):
+            for off in ((0.0, 0.0), (0.3, -0.2), (0.5, 0.5)):
+                cy, cx = nn // 2 + 1 + off[0], nn // 2 + 1 + off[1]
+                yy, xx = np.mgrid[:nn, :nn]
+                im = 5.0 * np.exp(-((yy - cy) ** 2 + (xx - cx) ** 2) / (2 * sg ** 2))
+                ck.count(("S.gauss-narrow", nn % 2, sg, off), suite="S.gaussian")
+                try:
+                    got = quiet(find_origin, im, "gaussian")
+                except Exception as e:
+                    ck.violation(dict(site="find_origin", method="gaussian", clause="exception"), dict(kind="narrow", shape=[nn, nn], centre=[cy, cx], sigma=sg), f"{type(e).__name__}: {e}")
+                    continue
+                if max(abs(got[0] - cy), abs(got[1] - cx)) > 1e-4:
+                    ck.violation(dict(site="find_origin", method="gaussian", clause="gaussian-centre"), dict(kind="narrow", shape=[nn, nn], centre=[cy, cx], sigma=sg),
+                                 f"gaussian fit of a narrow spot (σ = {sg} px) returned {got}, true centre {(cy, cx)}")
     for it in range(36 if not deep else 300):
         kind = ("ordinary", "sharp", "truncated")[it % 3]
         rows, cols = (int(v) for v in rng.integers(41, 70, size=2))
